@@ -53,6 +53,7 @@ func c09(r *core.Run) {
 	c09Connectives(r, p)
 	c09Desugar(r, p)
 	ruleNetmaskBounds(r, p)
+	ruleFamilyDecidedOnce(r, p)
 	// the IP-version restriction a query derives from its condition decides which part of a block is evaluated at all:
 	// it must be implied by the condition for every connective (shared with C08), otherwise `a | b` evaluated over a
 	// database is no longer the union of `a` and `b`
@@ -871,6 +872,79 @@ func ruleNetmaskBounds(r *core.Run, p *core.Prog) {
 		}
 		r.Check(rule, "conditionBytesAndNetmask:prefix-length-"+side+"-bound", p.Rel(f.Decl.Pos()), okAll,
 			orStr(detail, "")+map[string]string{"lower": " (a negative value indexes before the address bytes / shifts by more than 8)", "upper": ""}[side])
+	}
+}
+
+// ruleFamilyDecidedOnce: how many bytes an address has is decided by the conversion that produces them
+// (types.IPStringToBytes returns the bytes and whether they are an IPv4 address). A caller that indexes the bytes with a
+// computed index must take the width from that verdict; deciding the family a second time from the text (contains ':' /
+// contains '.') holds two beliefs about one fact, and they differ for addresses that contain both (::ffff:1.2.3.4): the
+// bytes are 4 long, the caller's width is 16, the index runs off the end. Decided per call site in
+// conditionBytesAndNetmask whose bytes are indexed by a non-constant: the isIPv4 result is bound (not discarded) and the
+// function contains no textual family test.
+func ruleFamilyDecidedOnce(r *core.Run, p *core.Prog) {
+	const rule = "parsed-int-bounds"
+	f := r.MustFunc(rule, pkgNode, "conditionBytesAndNetmask")
+	if f == nil {
+		return
+	}
+	info := f.Info()
+	// byte variables indexed by a non-constant
+	indexed := map[types.Object]bool{}
+	core.Walk(f.Decl.Body, false, func(x ast.Node) bool {
+		if ie, ok := x.(*ast.IndexExpr); ok {
+			if _, isC := core.ConstInt(info, ie.Index); !isC {
+				if o := core.ObjOf(info, ast.Unparen(ie.X)); o != nil {
+					indexed[o] = true
+				}
+			}
+		}
+		return true
+	})
+	var textual []string
+	core.Walk(f.Decl.Body, false, func(x ast.Node) bool {
+		if c, ok := x.(*ast.CallExpr); ok && len(c.Args) == 2 {
+			switch core.CallName(info, c) {
+			case "strings.Contains", "strings.ContainsRune", "strings.ContainsAny", "strings.Index", "strings.IndexByte", "strings.Count":
+				if v, okc := core.ConstStr(info, c.Args[1]); okc && (v == ":" || v == ".") {
+					textual = append(textual, p.Rel(c.Pos())+": "+core.Str(c))
+				}
+			}
+		}
+		return true
+	})
+	n := 0
+	core.Walk(f.Decl.Body, false, func(x ast.Node) bool {
+		a, ok := x.(*ast.AssignStmt)
+		if !ok || len(a.Rhs) != 1 || len(a.Lhs) != 3 {
+			return true
+		}
+		c, ok := core.IsCall(info, a.Rhs[0], "pkg/types.IPStringToBytes")
+		if !ok {
+			return true
+		}
+		bo := core.ObjOf(info, a.Lhs[0])
+		if bo == nil || !indexed[bo] {
+			return true
+		}
+		n++
+		id, _ := a.Lhs[1].(*ast.Ident)
+		bound := id != nil && id.Name != "_"
+		detail := ""
+		switch {
+		case !bound:
+			detail = "the address-family verdict of " + core.Str(c) + " is discarded although the bytes are indexed with a computed index"
+		case len(textual) > 0:
+			detail = "the address family is decided a second time from the text"
+		}
+		if len(textual) > 0 && detail != "" {
+			detail += " (" + strings.Join(textual, "; ") + "): for an address that contains both ':' and '.', e.g. ::ffff:1.2.3.4, the conversion yields 4 bytes while the width assumed here is 16, and the index runs past the end of the slice"
+		}
+		r.Check(rule, fmt.Sprintf("conditionBytesAndNetmask:address-width-from-the-conversion#%d", n), p.Rel(a.Pos()), bound && len(textual) == 0, detail)
+		return true
+	})
+	if n == 0 {
+		r.Undecided(rule, "conditionBytesAndNetmask:address-width-from-the-conversion", p.Rel(f.Decl.Pos()), "no IPStringToBytes call whose bytes are indexed by a computed index (the network case of the reference tree)")
 	}
 }
 
